@@ -35,7 +35,7 @@ def _c():
 
 @st.composite
 def _cases(draw, n_max=4):
-    seq = draw(gen.seq_cases(n_min=1, n_max=n_max, basis="rydberg", allow_mod=False, max_ops=3, dur_hi=60, dmin=5.5, dmax=10.0))
+    seq = draw(gen.seq_cases(n_min=1, n_max=n_max, basis="rydberg", allow_mod=False, max_ops=3, dur_hi=60, dmin=5.5, dmax=10.0, allow_no_global=True))
     n = len(seq["reg"]["ids"])
     rate = st.one_of(st.sampled_from([0.5, 2.0]), st.floats(0.01, 8.0).map(lambda v: round(v, 4)))
     nm = {}
